@@ -22,6 +22,20 @@ Origins == {<<>>, WireName(NEx)}
 TxtX == [t |-> 16, strs |-> << <<120>> >>]
 Rec(o, c, ttl, rd) == [owner |-> o, class |-> c, ttl |-> ttl, rd |-> rd]
 
+\* restricted-alphabet fields: strings over the boundary characters of the
+\* CAA tag alphabet ('A' 'Z' 'a' 'z' '0' '9') up to MaxStr, one character from
+\* just outside alone / behind a letter, the empty tag, three longer tags
+RECURSIVE BTags(_)
+BTags(n) == IF n = 0 THEN {<<>>}
+            ELSE LET P == BTags(n - 1) IN P \cup {Append(p, x) : p \in {q \in P : Len(q) = n - 1}, x \in FieldBoundary("caa_tag")}
+Tags == BTags(MaxStr) \cup {<<x>> : x \in FieldOutside("caa_tag")} \cup {<<97, x>> : x \in FieldOutside("caa_tag")}
+        \cup {<<73, 115, 115, 117, 101>>, <<73, 83, 83, 85, 69, 87, 73, 76, 68>>, <<105, 115, 115, 117, 101, 119, 105, 108, 100, 48, 57, 65, 90>>}
+\* values at the ends of the range and where the number of digits changes
+U8Bounds == {0, 1, 9, 10, 99, 100, 199, 200, 249, 250, 254, 255}
+U16Bounds == {0, 9, 10, 99, 100, 999, 1000, 9999, 10000, 65529, 65530, 65534, 65535}
+\* every type with a mnemonic, and values without one next to them / at the ends
+TypeValues == {p[2] : p \in RtypeMnemonics} \cup {0, 54, 66, 98, 110, 127, 129, 248, 260, 999, 1000, 9999, 10000, 32767, 32770, 65279, 65280, 65534, 65535}
+
 \* one group per field kind
 Group(g) ==
   CASE g = "owner1" -> {Rec(<<l, Lex>>, 1, 3600, TxtX) : l \in NonEmpty(MaxStr)}
@@ -39,21 +53,42 @@ Group(g) ==
                             d \in {<<>>, <<0>>, <<255>>, <<0, 165>>, <<10, 11, 12>>, <<1, 2, 3, 4, 5>>}}
     [] g = "ctt"    -> {Rec(<<Lex>>, c, ttl, TxtX) : c \in {1, 3, 4, 254, 255, 2, 4660, 65535},
                             ttl \in {0, 1, 120, 3600, 172800, 2147483647}}
-Groups == {"owner1", "owner2", "txt", "hinfo", "name", "mx", "generic", "ctt"}
+    \* --- restricted-alphabet token fields: everything the constructors admit,
+    \* at the boundary characters / values, and the characters just outside
+    [] g = "caa"    -> {Rec(<<Lex>>, 1, 5, [t |-> 257, fl |-> f, tag |-> tg, val |-> <<120>>]) : f \in {0, 128}, tg \in Tags}
+                       \cup {Rec(<<Lex>>, 1, 5, [t |-> 257, fl |-> f, tag |-> <<97, 48>>, val |-> <<>>]) : f \in U8Bounds}
+                       \cup {Rec(<<Lex>>, 1, 5, [t |-> 257, fl |-> 1, tag |-> <<116, 97, 103>>, val |-> v]) :
+                                v \in {<<34, 59, 40>>, <<0, 255, 92>>, <<97, 32, 98>>}}
+    [] g = "bitmap" -> {Rec(<<Lex>>, 1, 5, [t |-> 47, name |-> NEx, types |-> {ty}]) : ty \in TypeValues}
+                       \cup {Rec(<<Lex>>, 1, 5, [t |-> 47, name |-> NEx, types |-> ts]) : ts \in {{}, {1, 2, 46, 47, 257}, {23, 255, 256, 32768, 65535}}}
+    [] g = "ints"   -> {Rec(<<Lex>>, 1, 5, [t |-> 15, pref |-> p, name |-> NEx]) : p \in U16Bounds}
+                       \cup {Rec(<<Lex>>, 1, 5, [t |-> 52, u |-> a, s |-> 1, m |-> 2, data |-> <<171>>]) : a \in U8Bounds}
+                       \cup {Rec(<<Lex>>, 1, 5, [t |-> 52, u |-> 255, s |-> a, m |-> a, data |-> <<0, 255, 16>>]) : a \in {0, 255}}
+                       \cup {Rec(<<Lex>>, 1, 5, [t |-> 51, alg |-> 1, fl |-> f, it |-> i, salt |-> <<171, 205>>]) :
+                                f \in {0, 1, 255}, i \in {0, 10, 65530, 65535}}
+                       \cup {Rec(<<Lex>>, 1, 5, [t |-> 51, alg |-> a, fl |-> 0, it |-> 1, salt |-> sl]) :
+                                a \in {0, 255}, sl \in {<<>>, <<0>>, <<255>>, <<45>>, <<10, 171, 205, 239>>}}
+Groups == {"owner1", "owner2", "txt", "hinfo", "name", "mx", "generic", "ctt", "caa", "bitmap", "ints"}
 
 Init == /\ grp \in Groups /\ r \in Group(grp) /\ kind \in Kinds /\ origin \in Origins
 Next == UNCHANGED vars
 Spec == Init /\ [][Next]_vars
 
+\* a record the constructors would not build is not part of the domain of the law
+InDomain == AllAdmitted(r.rd, Dev \cap FieldDevs)
 \* the property on the composed specification (writer deviations Dev)
-ReadEqualsWritten == RoundTrip(r, kind, origin, Dev \cap WriterDevs)
+ReadEqualsWritten == InDomain => RoundTrip(r, kind, origin, Dev \cap WriterDevs)
 \* ... through the token route (record data as a token list, IterScanner)
-TokensReadEqualWritten == TokenRoundTrip(r, kind, Dev)
+TokensReadEqualWritten == InDomain => TokenRoundTrip(r, kind, Dev)
 \* ... and for the field texts on their own (Label / OwnedLabel, CharStr unquoted)
 StringsOf(rd) == IF rd.t = 16 THEN rd.strs ELSE IF rd.t = 13 THEN <<rd.cpu, rd.os>> ELSE <<>>
 FieldTextsReadEqualWritten ==
   /\ \A i \in 1..Len(r.owner) : LabelTextRoundTrip(r.owner[i], Dev \cap WriterDevs)
   /\ \A i \in 1..Len(StringsOf(r.rd)) : CharStrTextRoundTrip(StringsOf(r.rd)[i])
+
+\* ... and for the restricted-alphabet token fields on their own (everything
+\* the constructors admit today reads back, except where a field deviation says so)
+FieldsReadEqualWritten == FieldsRoundTrip(r.rd, Dev \cap FieldDevs)
 
 \* Routes: further ways to build the record (Record::new / From tuples /
 \* set_class / RecordHeader::into_record / Record::parse), its data (wire /
@@ -92,7 +127,15 @@ Emit ==
       o0 == ReadBack(code, origin, {})
       o1 == ReadBack(code, origin, ReaderDevs)
       which == IF WText(r, kind, {"D_label_escape_set"}) # ideal THEN "D_label_escape_set" ELSE "D_display_root_dot"
-  IN IF code = ideal THEN
+      na == [lib |-> "na", spec |-> "na", tok |-> "na", tokm |-> "na", lbl |-> "na", cs |-> "na"]
+      \* a record the constructors admit today although they should not: what the code makes of it
+      oc == ReadBackX(code, origin, {})
+  IN IF ~AllAdmitted(r.rd, {}) THEN
+        (IF AllAdmitted(r.rd, FieldDevs) /\ oc # Unmodelled /\ oc # Expected(r)
+         THEN PrintT("CASE " \o ToJson([in |-> inp @@ [adm |-> FALSE], exp |-> na,
+                   dev |-> [x \in {"D_caa_empty_tag"} |-> [lib |-> oc, spec |-> oc] @@ rest({})]]))
+         ELSE PrintT("CASE " \o ToJson([in |-> inp @@ [adm |-> FALSE], exp |-> na])))
+     ELSE IF code = ideal THEN
         (IF tokRead(TokenDevs) = tokRead({}) THEN PrintT("CASE " \o ToJson([in |-> inp, exp |-> expd]))
          ELSE PrintT("CASE " \o ToJson([in |-> inp, exp |-> expd,
                    dev |-> [x \in {"D_iterscanner_marker"} |-> [lib |-> "eq"] @@ rest(TokenDevs)]])))
